@@ -87,26 +87,32 @@ Proof.
   destruct (String.eqb (strip line) "@endpy"); simpl; auto.
 Qed.
 
-Lemma py_old_go_bounds : forall op rest base acc k,
-  k < snd (py_old_go op rest base acc k) /\ snd (py_old_go op rest base acc k) <= S (k + length rest).
+Lemma py_old_go_bounds : forall op start rest base acc k c n,
+  py_old_go op start rest base acc k = POk (c, n) -> k < n /\ n <= k + length rest.
 Proof.
-  induction rest as [|line rest IH]; intros; simpl; [lia|].
-  destruct (String.eqb (strip line) ">>"); simpl; [lia|].
-  match goal with |- context [py_old_go op rest ?b ?a ?k'] => specialize (IH b a k') end. lia.
+  induction rest as [|line rest IH]; intros base acc k c n H; simpl in H; [discriminate|].
+  destruct (String.eqb (strip line) ">>").
+  - inversion H; subst. simpl. lia.
+  - apply IH in H. simpl. lia.
 Qed.
 
-(* new syntax: 1 <= consumed <= len - start; legacy syntax: an unclosed block reports one more *)
+Lemma py_old_go_allowed : forall b op start rest base acc k, allowed b (py_old_go op start rest base acc k).
+Proof.
+  induction rest as [|line rest IH]; intros; simpl; auto.
+  destruct (String.eqb (strip line) ">>"); simpl; auto.
+Qed.
+
+(* both syntaxes: 1 <= consumed <= len - start (fix F17o: an unclosed legacy block is a diagnostic; before it the
+   legacy extractor reported one line more than there are) *)
 Lemma extract_python_block_bounds : forall fx lines start c n,
   extract_python_block_v fx lines start = POk (c, n) ->
-  1 <= n /\ n <= S (length lines - start).
+  1 <= n /\ n <= length lines - start.
 Proof.
   intros fx lines start c n H. unfold extract_python_block_v in H.
   destruct (nth_error lines start) as [line|] eqn:E; [|discriminate].
   assert (L : start < length lines) by (apply nth_error_Some; rewrite E; discriminate).
   destruct (startswith (strip line) "<<py").
-  - inversion H as [H1]. unfold extract_py_old_syntax in *.
-    pose proof (py_old_go_bounds (nth start lines EmptyString) (skipn (S start) lines) None [] 1) as B.
-    rewrite skipn_length in B. rewrite H1 in B. cbn [snd] in B. lia.
+  - unfold extract_py_old_syntax in H. apply py_old_go_bounds in H. rewrite skipn_length in H. lia.
   - destruct (startswith (strip line) "@py"); [|discriminate].
     unfold extract_py_new_syntax_v in H. rewrite E in H.
     destruct (negb (String.eqb (strip line) "@py:")); [discriminate|].
@@ -128,7 +134,7 @@ Lemma extract_python_block_recok : forall fx b lines i l,
 Proof.
   intros fx b lines i l E. split.
   - unfold extract_python_block_v. rewrite E.
-    destruct (startswith (strip l) "<<py"); simpl; auto.
+    destruct (startswith (strip l) "<<py"); [unfold extract_py_old_syntax; apply py_old_go_allowed|].
     destruct (startswith (strip l) "@py"); simpl; auto.
     unfold extract_py_new_syntax_v. rewrite E.
     destruct (negb (String.eqb (strip l) "@py:")); simpl; auto. apply py_new_go_allowed.
@@ -140,7 +146,10 @@ Lemma extract_python_block_internal_iff : forall fx lines start e,
 Proof.
   intros fx lines start e H. unfold extract_python_block_v in H.
   destruct (nth_error lines start) as [line|] eqn:E.
-  - exfalso. destruct (startswith (strip line) "<<py"); [discriminate|].
+  - exfalso. destruct (startswith (strip line) "<<py").
+    { unfold extract_py_old_syntax in H.
+      pose proof (py_old_go_allowed false (nth start lines EmptyString) start (skipn (S start) lines) None [] 1) as A.
+      rewrite H in A. simpl in A. discriminate. }
     destruct (startswith (strip line) "@py"); [|discriminate].
     unfold extract_py_new_syntax_v in H. rewrite E in H.
     destruct (negb (String.eqb (strip line) "@py:")); [discriminate|].
@@ -907,7 +916,7 @@ Definition header_at (p : string -> bool) (lines : list string) (start : nat) : 
 
 Lemma contract_all : forall fixed cap lf lines start,
   (forall c n, extract_python_block lines start = POk (c, n) ->
-               1 <= n /\ n <= S (length lines - start)) /\
+               1 <= n /\ n <= length lines - start) /\
   (forall c n, extract_py_new_syntax lines start = POk (c, n) ->
                1 <= n /\ n <= length lines - start) /\
   (forall t n, extract_conditional_block_v fixed cap lf lines start = POk (t, n) ->
